@@ -79,7 +79,8 @@ Honest(k, in) == [kind |-> k, in |-> in, hdr |-> [f \in Fields(k) |-> Rec(k, f, 
 ---------------------------------------------------------------------------
 (* tamper cases *)
 BodyEdits == {"drop", "dup", "swap", "strip", "app_epoch", "app_poor"}
-TimeOut   == {"below1", "atprev", "beforeprev", "above1", "farabove"}
+TimeOut   == {"below1", "atprev", "beforeprev", "above1", "farabove",
+              "maxint", "minint"}      \* next to the limits of the 64-bit seconds counter (arithmetic on them wraps around)
 KeyCases  == {"swap", "unknown", "offline"}
 FreeCases == {"fee_absent", "time_inwin", "offline_propose"}
 (* structural tampers: they change WHICH parts the header carries / whether an empty block has a  *)
@@ -105,7 +106,9 @@ FieldCases(k) == {[t |-> "field", f |-> f, op |-> op] : f \in Fields(k), op \in 
 BodyCases(k)  == IF k = "empty" THEN {}
                  ELSE {[t |-> "body", e |-> e, rehash |-> r] :
                           e \in (IF k = "pnotx" THEN {"app_epoch", "app_poor"} ELSE BodyEdits), r \in BOOLEAN}
-TimeCases(k)  == IF k = "empty" THEN {} ELSE {[t |-> "time", c |-> c] : c \in TimeOut}
+\* rebuilt: the block is HONESTLY built for that timestamp (every derived field recomputed for it by the proposer's own functions):
+\* the window is then the only thing wrong with it
+TimeCases(k)  == IF k = "empty" THEN {} ELSE {[t |-> "time", c |-> c, rebuilt |-> r] : c \in TimeOut, r \in BOOLEAN}
 KeyCs(k)      == IF k = "empty" THEN {} ELSE {[t |-> "key", c |-> c] : c \in KeyCases}
 FreeCs(k)     == IF k = "empty" THEN {} ELSE {[t |-> "free", c |-> c] : c \in FreeCases}
 ReplayCases(k) == IF k = "empty" THEN {} ELSE {[t |-> "replay", g |-> g] : g \in DOMAIN ReplayGroups}
@@ -140,7 +143,8 @@ Apply(b, c, D) ==
                           ELSE [b EXCEPT !.hdr[c.f] = Alt(c.op)]
       [] c.t = "body"  -> LET b1 == [b EXCEPT !.in.body = c.e]
                           IN IF c.rehash THEN [b1 EXCEPT !.hdr["txhash"] = Rec(b.kind, "txhash", b1.in)] ELSE b1
-      [] c.t = "time"  -> [b EXCEPT !.in.time = c.c]
+      [] c.t = "time"  -> IF c.rebuilt THEN [Honest(b.kind, [b.in EXCEPT !.time = c.c]) EXCEPT !.free = b.free]
+                          ELSE [b EXCEPT !.in.time = c.c]
       [] c.t = "key"   -> IF c.c = "swap"
                           THEN [b EXCEPT !.in.key = "other"]                       \* key replaced, nothing recomputed
                           ELSE [Honest(b.kind, [b.in EXCEPT !.key = c.c]) EXCEPT !.free = b.free]  \* honestly built by an ineligible key
